@@ -7,6 +7,7 @@
 -/
 import PM.Fill
 import Proofs.Fill
+import Proofs.Wrap
 namespace PM.C15
 open PM
 
@@ -81,6 +82,63 @@ theorem findWrapping_sound (S : Schema) (hdet : ∀ w, (((S.dfa w).edgesOf 0).ma
     (h : findWrapping S d q target = some chain) : isWrapChain S d q target chain = true :=
   findWrapping_sound_aux S d q target hdet chain h
 
+/-- every edge label the wrapper search can meet (at the asked position and at the start state of
+    every node type's content automaton) is a node type of the schema (decidable: bounded quantifiers) -/
+def WrapWF (S : Schema) (d : Dfa) (q : Nat) : Prop :=
+  (∀ e, e ∈ d.edgesOf q → e.1 < S.nodes.size) ∧
+  (∀ nt, nt ∈ S.nodes.toList → ∀ e, e ∈ Dfa.edgesOf nt.dfa 0 → e.1 < S.nodes.size)
+
+instance (S : Schema) (d : Dfa) (q : Nat) : Decidable (WrapWF S d q) := by
+  unfold WrapWF; exact inferInstance
+
+theorem WrapWF.start {S : Schema} {d : Dfa} {q : Nat} (h : WrapWF S d q) (w t s : Nat)
+    (hm : (t, s) ∈ (S.dfa w).edgesOf 0) : t < S.nodes.size := by
+  unfold Schema.dfa Schema.nodeType at hm
+  by_cases hw : w < S.nodes.size
+  · refine h.2 S.nodes[w] (by simp) (t, s) ?_
+    simpa [hw] using hm
+  · have : S.nodes[w]! = default := by simp [hw]
+    rw [this] at hm
+    have he : Dfa.edgesOf (default : NodeType).dfa 0 = [] := rfl
+    rw [he] at hm
+    simp at hm
+
+/-- **completeness of the wrapper search**: if any chain fits, the search finds one.  The fuel
+    `findWrapping` passes is never exhausted: every node type is queued at most once (seen-set), so at
+    most `S.nodes.size + 1` items are ever popped. -/
+theorem findWrapping_complete (S : Schema) (d : Dfa) (q : Nat) (hwf : WrapWF S d q) (target : TypeId)
+    (chain : List TypeId) (hc : isWrapChain S d q target chain = true) :
+    findWrapping S d q target ≠ none := by
+  intro hnone
+  obtain ⟨x, hr, hg⟩ := reach_of_isWrapChain S d q target chain hc
+  unfold findWrapping at hnone
+  refine wrapSearch_complete S d q target S.nodes.size ?_ _ _ _ (winv_init S d q target) ?_ hnone x _ hr hg
+  · intro x t s hm
+    rcases x with _ | w
+    · exact hwf.1 (t, s) hm
+    · exact hwf.start w t s hm
+  · have := unseen_le S.nodes.size []
+    simp only [List.length_cons, List.length_nil]
+    have h2 : 0 ≤ S.nodes.size * S.nodes.size := Nat.zero_le _
+    omega
+
+/-- **the wrapper search finds a shortest chain**: no fitting chain is shorter than the returned one -/
+theorem findWrapping_shortest (S : Schema) (d : Dfa) (q : Nat) (target : TypeId) (c : List TypeId)
+    (h : findWrapping S d q target = some c) (chain : List TypeId)
+    (hc : isWrapChain S d q target chain = true) : c.length ≤ chain.length := by
+  obtain ⟨x, hr, hg⟩ := reach_of_isWrapChain S d q target chain hc
+  exact wrapSearch_shortest S d q target _ _ _ c (winv_init S d q target) h x _ hr hg
+
+/-- the two together, as the property states it: "a shortest such chain is found whenever any chain
+    exists" -/
+theorem findWrapping_shortest_complete (S : Schema) (hdet : ∀ w, (((S.dfa w).edgesOf 0).map (·.1)).Nodup)
+    (d : Dfa) (q : Nat) (hwf : WrapWF S d q) (target : TypeId)
+    (chain : List TypeId) (hc : isWrapChain S d q target chain = true) :
+    ∃ c, findWrapping S d q target = some c ∧ isWrapChain S d q target c = true ∧ c.length ≤ chain.length := by
+  rcases h : findWrapping S d q target with _ | c
+  · exact absurd h (findWrapping_complete S d q hwf target chain hc)
+  · exact ⟨c, rfl, findWrapping_sound S hdet d q target c h, findWrapping_shortest S d q target c h chain hc⟩
+
 private def mkNT (name : String) (isLeaf : Bool) (dfa : Array DfaState) : NodeType :=
   { name := name, isText := false, isInline := false, isLeaf := isLeaf, isAtom := isLeaf,
     inlineContent := false, isolating := false, defining := false, code := false,
@@ -100,5 +158,8 @@ example : findWrapping S4 (S4.dfa 0) 0 3 = some [2] ∧ fillBefore (S4.dfa 2) S4
   · decide +kernel
   · simp [fillBefore, fillSearch, fillEdges, Dfa.run, Dfa.validEnd, Dfa.edgesOf, Schema.dfa, Schema.nodeType,
       Schema.generatable, S4, mkNT]
+
+/-- non-vacuity of the hypotheses of `findWrapping_shortest_complete` on the same schema -/
+example : WrapWF S4 (S4.dfa 0) 0 ∧ isWrapChain S4 (S4.dfa 0) 0 3 [2] = true := by decide
 
 end PM.C15
